@@ -5,6 +5,7 @@ func init() {
 		ID:    "C08",
 		Title: "Lexing and parsing terminate on every input and end in a program or an error",
 		Rules: []string{
+			"R-PATHAPI (file content): EvaluateFile hands the file's bytes to EvaluateString unchanged",
 			"R-ERRLINE: every error the parser records takes its line from the ErrorLine() of a token (never 0, the library's \"no line\")",
 			"R-BLOCK: no go statement, channel send / receive or select in the functions that lex, parse and load (parsing is never waited on)",
 			"R-NILRET: on the load path the result of a parse is used only after its errors were tested",
@@ -23,6 +24,7 @@ func init() {
 		NotDecided:  "TODO",
 		Assumptions: trustedBase,
 		Run: func(m *Model, s *Sink) {
+			m.RunEvalFile(s, "R-PATHAPI")                                    // the whole content of a file reaches the lexer
 			m.RunErrLine(s, "R-ERRLINE")                                     // the error a rejected template yields carries a line: every parser error takes it from the ErrorLine() of a token (1-based)
 			m.RunNoBlocking(s, "R-BLOCK", m.reachableFns(m.Roots().Load))    // nothing on the load path can wait: no goroutines, channel operations or selects
 			m.RunNilRet(s, "R-NILRET", m.reachableFns(m.Roots().Load))       // a nil program is not touched before its errors were tested
